@@ -9,8 +9,32 @@ use yuvxyb::{
     ColorPrimaries as CP, ConversionError as CE, LinearRgb, MatrixCoefficients as MC, Pixel, Rgb, TransferCharacteristic as TC, Xyb, Yuv, YuvConfig,
 };
 
-const PIX: [[f32; 3]; 4] = [[0.10, 0.20, 0.30], [0.80, 0.40, 0.20], [0.50, 0.50, 0.50], [0.25, 0.75, 0.95]];
+const PIX4: [[f32; 3]; 4] = [[0.10, 0.20, 0.30], [0.80, 0.40, 0.20], [0.50, 0.50, 0.50], [0.25, 0.75, 0.95]];
 const CODES: [[u16; 3]; 4] = [[60, 100, 140], [200, 90, 160], [128, 128, 128], [35, 180, 70]];
+/// 4x4 image (so that every subsampling up to 4:1:0 divides it)
+fn pix() -> Vec<[f32; 3]> {
+    (0..16).map(|i| PIX4[(i + i / 4) % 4]).collect()
+}
+fn xyb_pix() -> Vec<[f32; 3]> {
+    pix().into_iter().map(|q| [q[0] * 0.01, q[1] * 0.5, q[2] * 0.5]).collect()
+}
+
+/// the part of the configuration that is not metadata: subsampling and range
+#[derive(Clone, Copy, Debug, PartialEq, Eq)]
+pub struct Shape {
+    pub ss: (u8, u8),
+    pub full: bool,
+}
+pub const SHAPES: [Shape; 8] = [
+    Shape { ss: (0, 0), full: false },
+    Shape { ss: (0, 0), full: true },
+    Shape { ss: (1, 1), full: false },
+    Shape { ss: (1, 1), full: true },
+    Shape { ss: (1, 0), full: false },
+    Shape { ss: (1, 0), full: true },
+    Shape { ss: (2, 2), full: false },
+    Shape { ss: (0, 1), full: true },
+];
 
 /// outcome of one conversion: Ok(fingerprint of the output) or the error
 type Out = Result<Vec<u32>, CE>;
@@ -24,8 +48,10 @@ fn fp_y<T: Pixel>(y: &Yuv<T>) -> Vec<u32> {
 
 fn mk_yuv<T: Pixel>(c: &YuvConfig) -> Yuv<T> {
     let k = if c.bit_depth > 8 { c.bit_depth - 8 } else { 0 };
-    let codes: Vec<[u16; 3]> = CODES.iter().map(|p| [p[0] << k, p[1] << k, p[2] << k]).collect();
-    Yuv::<T>::new(frame444::<T>(&codes, 2, 2, 0, 0), *c).expect("well-formed 2x2 frame")
+    let (cw, ch) = (4usize >> c.subsampling_x, 4usize >> c.subsampling_y);
+    let plane = |pl: usize, n: usize| -> Vec<u16> { (0..n).map(|i| CODES[(i + i / 4) % 4][pl] << k).collect() };
+    let planes = [plane(0, 16), plane(1, cw * ch), plane(2, cw * ch)];
+    Yuv::<T>::new(crate::conv::yuv_frame::<T>(4, 4, (c.subsampling_x, c.subsampling_y), [(0, 0); 3], &planes, 0), *c).expect("well-formed 4x4 frame")
 }
 
 pub const NCONV: usize = 12;
@@ -59,43 +85,43 @@ const USES: [(bool, bool, bool); NCONV] = [
     (false, true, true),
 ];
 
-fn run_conv(i: usize, m: MC, p: CP, t: TC) -> Out {
-    let c8 = cfg(m, t, p, 8, false, (0, 0));
-    let c10 = cfg(m, t, p, 10, false, (0, 0));
+fn run_conv(i: usize, m: MC, p: CP, t: TC, sh: Shape) -> Out {
+    let c8 = cfg(m, t, p, 8, sh.full, sh.ss);
+    let c10 = cfg(m, t, p, 10, sh.full, sh.ss);
     match i {
         0 => Rgb::try_from(&mk_yuv::<u8>(&c8)).map(|r| fp_f(r.data())),
-        1 => Yuv::<u8>::try_from((&Rgb::new(PIX.to_vec(), 2, 2, t, p).unwrap(), c8)).map(|y| fp_y(&y)),
+        1 => Yuv::<u8>::try_from((&Rgb::new(pix(), 4, 4, t, p).unwrap(), c8)).map(|y| fp_y(&y)),
         2 => Rgb::try_from(&mk_yuv::<u16>(&c10)).map(|r| fp_f(r.data())),
-        3 => Yuv::<u16>::try_from((&Rgb::new(PIX.to_vec(), 2, 2, t, p).unwrap(), c10)).map(|y| fp_y(&y)),
-        4 => LinearRgb::try_from(Rgb::new(PIX.to_vec(), 2, 2, t, p).unwrap()).map(|r| fp_f(r.data())),
-        5 => Rgb::try_from((LinearRgb::new(PIX.to_vec(), 2, 2).unwrap(), t, p)).map(|r| fp_f(r.data())),
+        3 => Yuv::<u16>::try_from((&Rgb::new(pix(), 4, 4, t, p).unwrap(), c10)).map(|y| fp_y(&y)),
+        4 => LinearRgb::try_from(Rgb::new(pix(), 4, 4, t, p).unwrap()).map(|r| fp_f(r.data())),
+        5 => Rgb::try_from((LinearRgb::new(pix(), 4, 4).unwrap(), t, p)).map(|r| fp_f(r.data())),
         6 => LinearRgb::try_from(&mk_yuv::<u16>(&c10)).map(|r| fp_f(r.data())),
-        7 => Yuv::<u16>::try_from((LinearRgb::new(PIX.to_vec(), 2, 2).unwrap(), c10)).map(|y| fp_y(&y)),
+        7 => Yuv::<u16>::try_from((LinearRgb::new(pix(), 4, 4).unwrap(), c10)).map(|y| fp_y(&y)),
         8 => Xyb::try_from(&mk_yuv::<u8>(&c8)).map(|r| fp_f(r.data())),
-        9 => Yuv::<u8>::try_from((Xyb::new(PIX.map(|q| [q[0] * 0.01, q[1] * 0.5, q[2] * 0.5]).to_vec(), 2, 2).unwrap(), c8)).map(|y| fp_y(&y)),
-        10 => Xyb::try_from(Rgb::new(PIX.to_vec(), 2, 2, t, p).unwrap()).map(|r| fp_f(r.data())),
-        _ => Rgb::try_from((Xyb::new(PIX.map(|q| [q[0] * 0.01, q[1] * 0.5, q[2] * 0.5]).to_vec(), 2, 2).unwrap(), t, p)).map(|r| fp_f(r.data())),
+        9 => Yuv::<u8>::try_from((Xyb::new(xyb_pix(), 4, 4).unwrap(), c8)).map(|y| fp_y(&y)),
+        10 => Xyb::try_from(Rgb::new(pix(), 4, 4, t, p).unwrap()).map(|r| fp_f(r.data())),
+        _ => Rgb::try_from((Xyb::new(xyb_pix(), 4, 4).unwrap(), t, p)).map(|r| fp_f(r.data())),
     }
 }
 
-fn guarded(i: usize, m: MC, p: CP, t: TC) -> Result<Out, String> {
-    catch(|| run_conv(i, m, p, t))
+fn guarded(i: usize, m: MC, p: CP, t: TC, sh: Shape) -> Result<Out, String> {
+    catch(|| run_conv(i, m, p, t, sh))
 }
 
 fn names(m: MC, p: CP, t: TC) -> Value {
     json!({"matrix": crate::oracle::mc_name(m), "primaries": crate::oracle::cp_name(p), "transfer": crate::oracle::tc_name(t)})
 }
 
-pub fn check_triple(m: MC, p: CP, t: TC, st: &mut Stats) -> Result<(), Violation> {
+pub fn check_triple(m: MC, p: CP, t: TC, sh: Shape, st: &mut Stats) -> Result<(), Violation> {
     let fail = |sig: String, msg: String| Violation {
         signature: sig,
-        message: format!("{msg} [matrix={:?} primaries={:?} transfer={:?}]", m, p, t),
-        case: json!({"prop":"C14","triple":names(m, p, t)}),
+        message: format!("{msg} [matrix={:?} primaries={:?} transfer={:?} subsampling={:?} full_range={}]", m, p, t, sh.ss, sh.full),
+        case: json!({"prop":"C14","triple":names(m, p, t),"ss":[sh.ss.0, sh.ss.1],"full":sh.full}),
     };
     let all_supported = STD_MC.contains(&m) && SUP_CP.contains(&p) && SUP_TC.contains(&t);
     let mut outs: Vec<Out> = Vec::with_capacity(NCONV);
     for i in 0..NCONV {
-        match guarded(i, m, p, t) {
+        match guarded(i, m, p, t, sh) {
             Err(pn) => return Err(fail(format!("C14:panic:{}", CONV_NAMES[i]), format!("{} panicked: {pn}", CONV_NAMES[i]))),
             Ok(o) => outs.push(o),
         }
@@ -124,7 +150,7 @@ pub fn check_triple(m: MC, p: CP, t: TC, st: &mut Stats) -> Result<(), Violation
                 }
                 // ... that is responsible: replacing only that field by a supported value removes this error
                 let (m2, p2, t2) = (if is_m { MC::BT709 } else { m }, if is_p { CP::BT709 } else { p }, if is_t { TC::BT1886 } else { t });
-                match guarded(i, m2, p2, t2) {
+                match guarded(i, m2, p2, t2, sh) {
                     Err(pn) => return Err(fail(format!("C14:panic:{}", CONV_NAMES[i]), format!("{} panicked on the counterfactual: {pn}", CONV_NAMES[i]))),
                     Ok(Err(e2)) if e2 == *e => {
                         return Err(fail(
@@ -162,7 +188,7 @@ pub fn check_triple(m: MC, p: CP, t: TC, st: &mut Stats) -> Result<(), Violation
     // independence: with a standard matrix YUV<->RGB ignores transfer and primaries
     if STD_MC.contains(&m) {
         for i in 0..4 {
-            let base = guarded(i, m, CP::BT709, TC::BT1886).map_err(|pn| fail(format!("C14:panic:{}", CONV_NAMES[i]), pn))?;
+            let base = guarded(i, m, CP::BT709, TC::BT1886, sh).map_err(|pn| fail(format!("C14:panic:{}", CONV_NAMES[i]), pn))?;
             match (&outs[i], &base) {
                 (Ok(a), Ok(b)) if a == b => {}
                 (a, b) => {
@@ -193,10 +219,12 @@ pub fn run(ctx: &Ctx, st: &mut Stats) -> Vec<Violation> {
         }
     }
     assert_eq!(triples.len(), 3276);
-    let out = par_sweep(ctx, st, triples.len() as u64, |lo, hi, st| {
+    let nt = triples.len() as u64;
+    let out = par_sweep(ctx, st, nt * SHAPES.len() as u64, |lo, hi, st| {
         for i in lo..hi {
-            let (m, p, t) = triples[i as usize];
-            if let Err(v) = check_triple(m, p, t, st) {
+            let (m, p, t) = triples[(i % nt) as usize];
+            let sh = SHAPES[(i / nt) as usize];
+            if let Err(v) = check_triple(m, p, t, sh, st) {
                 return Some(v);
             }
             st.evaluations += 1;
@@ -204,14 +232,14 @@ pub fn run(ctx: &Ctx, st: &mut Stats) -> Vec<Violation> {
             if !all_supported {
                 st.nontrivial_by_construction += 1;
             }
-            if i % 409 == 0 {
-                st.samples.push(names(m, p, t));
+            if i % 3001 == 0 {
+                st.samples.push(json!({"triple": names(m, p, t), "ss": [sh.ss.0, sh.ss.1], "full": sh.full}));
             }
         }
         None
     });
     if out.is_empty() {
-        st.exhaustive_parts.push("ALL: 14 x 13 x 18 = 3276 fully specified (matrix, primaries, transfer) triples x 12 conversions (6 forward/reverse pairs)".into());
+        st.exhaustive_parts.push("ALL: 14 x 13 x 18 = 3276 fully specified (matrix, primaries, transfer) triples x 12 conversions (6 forward/reverse pairs), each under 8 (subsampling, range) shapes".into());
     }
     out
 }
@@ -220,7 +248,9 @@ pub fn replay(v: &Value) -> Result<(), String> {
     let t = v.get("triple").ok_or("triple")?;
     let c = cfg_from_json(&json!({"depth":8,"ss_x":0,"ss_y":0,"full":false,"matrix":t.get("matrix"),"transfer":t.get("transfer"),"primaries":t.get("primaries")})).ok_or("bad triple")?;
     let _ = cfg_json(&c);
-    check_triple(c.matrix_coefficients, c.color_primaries, c.transfer_characteristics, &mut Stats::new()).map_err(|v| v.message)
+    let ss = v.get("ss").and_then(|a| a.as_array()).map(|a| (a[0].as_u64().unwrap_or(0) as u8, a[1].as_u64().unwrap_or(0) as u8)).unwrap_or((0, 0));
+    let full = v.get("full").and_then(|b| b.as_bool()).unwrap_or(false);
+    check_triple(c.matrix_coefficients, c.color_primaries, c.transfer_characteristics, Shape { ss, full }, &mut Stats::new()).map_err(|v| v.message)
 }
 
-pub const RULE: &str = "complete enumeration (both tiers): every fully specified (MatrixCoefficients, ColorPrimaries, TransferCharacteristic) triple (14 x 13 x 18 = 3276) x 12 conversions on a 2x2 image (YUV<->RGB in u8 and u16 storage, gamma<->linear, YUV<->linear, YUV<->XYB, RGB<->XYB). Oracle: no panic; the 7 x 11 x 14 supported triples succeed everywhere; an error is an Unsupported* variant naming a field the conversion uses and that is responsible (counterfactual: replacing only that field by BT.709/BT.1886 removes that error); forward Ok iff reverse Ok; YUV<->RGB and gamma<->linear pairs fail with the same error; with a standard matrix YUV<->RGB output is bit-identical for all transfer/primaries values. A case = one triple (all 12 conversions and their counterfactuals); non-trivial = triple outside the all-supported set; distinct by construction";
+pub const RULE: &str = "complete enumeration (both tiers): every fully specified (MatrixCoefficients, ColorPrimaries, TransferCharacteristic) triple (14 x 13 x 18 = 3276) x 12 conversions on a 4x4 image, repeated for 8 (subsampling, range) shapes: 4:4:4, 4:2:0, 4:2:2, 4:1:0 (2,2), 4:4:0 x limited/full (YUV<->RGB in u8 and u16 storage, gamma<->linear, YUV<->linear, YUV<->XYB, RGB<->XYB). Oracle: no panic; the 7 x 11 x 14 supported triples succeed everywhere; an error is an Unsupported* variant naming a field the conversion uses and that is responsible (counterfactual: replacing only that field by BT.709/BT.1886 removes that error); forward Ok iff reverse Ok; YUV<->RGB and gamma<->linear pairs fail with the same error; with a standard matrix YUV<->RGB output is bit-identical for all transfer/primaries values. A case = one (triple, shape) (all 12 conversions and their counterfactuals); non-trivial = triple outside the all-supported set; distinct by construction";
